@@ -18,6 +18,7 @@ def parseMgrOp (line : String) : Option Op :=
   | "create" :: name :: layers => some (.create name (layers.map parseLayer))
   | ["get", n] => some (.get n)
   | ["all"] => some .all
+  | ["var"] => some .all           -- the expvar view lists exactly the registered circuits: observationally `all`
   | ["stats", n] => some (.stats n)
   | _ => none
 
